@@ -80,7 +80,11 @@ def run_grid(report, rng, quick):
         params += g
         for i, pa in enumerate(g):
             for j, pb in enumerate(g):
-                a, b = make(pa), make(pb)
+                try:
+                    a, b = make(pa), make(pb)
+                except ValueError:
+                    report.cov.setdefault("skipped_configs", []).append([sig(pa), sig(pb)])
+                    continue              # a refused constructor is C18's business, not C15's
                 for n, k in enumerate(keys):          # both non-empty, different contents
                     a.add(k, n + 1)
                     b.add(k[::-1] + b"x", 2 * n + 1)
